@@ -145,6 +145,8 @@ def make_obs(I, S):
                "action": action_json(m, S.act), "fully_obs": bool(mev(m, S.extra["fully"])), "draws": [],
                "result": {k: bool(mev(m, bval(f[k]))) for k in ("success", "connection_error", "permission_error", "undefined_error")}}
         out["result"]["value"] = mev(m, rval(f["value"]))
+        if isinstance(f.get("access"), SymV):
+            out["result"]["access"] = mev(m, rval(f["access"]))
         for k in ("discovered", "newly_discovered"):
             d = f.get(k)
             out["result"][k] = {f"{a[0]},{a[1]}": bool(mev(m, bval(v))) for a, v in d.d.items()} if isinstance(d, PyDict) else {}
